@@ -176,7 +176,7 @@ func TestC02(t *testing.T) {
 			}
 		}
 	})
-	r.Parallel(t, "v1-add-remove", r.Cfg.pick(500, 15000), func(t *testing.T, idx int, rng *rand.Rand) {
+	r.Parallel(t, "v1-add-remove", r.Cfg.pick(1500, 15000), func(t *testing.T, idx int, rng *rand.Rand) {
 		c := r.prioCase(t, genPrioScenario(rng, prioGen{Vers: []string{"v1"}, Dividers: allDividers, Mode: "addrm"}))
 		if c.res != nil && c.res.Terminated && c.res.TermWay == "drained" && c.res.PriosWith2 >= 2 {
 			r.NonTrivial(jsonString(c.sc))
@@ -253,6 +253,16 @@ func TestC06(t *testing.T) {
 			if r.WantSample() {
 				r.Sample(prioSample(c))
 			}
+		}
+	})
+	// v1: progress must survive AddInput / replacement (also of a closed and drained channel) /
+	// RemoveInput: with every item released at once, everything written to registered channels
+	// keeps being delivered (the epilogue's bounded-progress oracle)
+	r.Parallel(t, "v1-add-remove", r.Cfg.pick(1000, 12000), func(t *testing.T, idx int, rng *rand.Rand) {
+		c := r.prioCase(t, genPrioScenario(rng, prioGen{Vers: []string{"v1"}, Dividers: []string{"fair", "rate", "rate"}, Mode: "addrm"}))
+		if c.res != nil && c.res.Terminated && c.res.TermWay == "drained" && c.res.CtlOps >= 1 {
+			r.Count("v1_add_remove.scenarios_delivered_to_the_end", 1)
+			r.NonTrivial(jsonString(c.sc))
 		}
 	})
 }
